@@ -22,7 +22,7 @@ cls('Tracker', file=F + 'base.py',
         'w_mean': lambda s: implies(s.kind == 0, R(s.N) * s.tracked_value == s.S1),
         'w_m2': lambda s: implies(s.kind == 0, R(s.N) * s.sum_squares == R(s.N) * s.S2 - s.S1 * s.S1),
         'w_m2_nonneg': lambda s: implies(s.kind == 0, s.sum_squares >= 0),
-        'w_zero': lambda s: implies(s.N == 0, land(s.tracked_value == 0, s.S1 == 0, s.S2 == 0,
+        'w_zero': lambda s: implies(s.N == 0, land(s.tracked_value == 0, s.S1 == 0, s.S2 == 0, s.lo0 == 0, s.hi0 == 0,
                                                     implies(s.kind == 0, s.sum_squares == 0))),
         'w_bounds': lambda s: implies(land(s.kind == 0, s.N >= 1), land(s.lo <= s.tracked_value,
                                                                          s.tracked_value <= s.hi)),
@@ -80,6 +80,31 @@ def reveal_upd(t0term, v, t1term):
     facts += [f(t1) for f in CLASSES['Tracker'].all_invariants().values()]
     facts.append(INV('Tracker', t1term))
     return UPD(t0term, v, t1term) == land(*facts)
+
+
+def reveal_upd_parts(parts):
+    """selected consequences of the definition of UPD, quantified over tracker terms (pattern: the UPD atom):
+    'count' (N' = N+1), 'family' (kind/alpha unchanged), 'lo0' (lo0' = min(lo0, v)), 'lin' (the linear step),
+    'inv' (the opaque invariant of the result)"""
+    from pyvc.sym import SObj
+    from pyvc import sym
+    T = TObj('Tracker')
+    t0 = z3.Const('rp!t0', T.sort())
+    t1 = z3.Const('rp!t1', T.sort())
+    v = z3.Real('rp!v')
+    a, b = ObjView(SObj('Tracker', term=t0)), ObjView(SObj('Tracker', term=t1))
+    facts = []
+    if 'count' in parts:
+        facts.append(b.N == a.N + 1)
+    if 'family' in parts:
+        facts += [b.kind == a.kind, b.alpha == a.alpha]
+    if 'lo0' in parts:
+        facts.append(b.lo0 == ite(v < a.lo0, v, a.lo0))
+    if 'lin' in parts:
+        facts.append(b.tracked_value == a.tracked_value + _gain(a) * (v - a.tracked_value))
+    if 'inv' in parts:
+        facts.append(INV('Tracker', t1))
+    return [sym.forall([t0, v, t1], z3.Implies(UPD(t0, v, t1), land(*facts)), [UPD(t0, v, t1)])]
 
 
 # interface contract used at call sites where the concrete tracker is not known
